@@ -1,4 +1,4 @@
-import SiaProofs.Lemmas.LedgerC01Prim
+import SiaProofs.Lemmas.LedgerC01Solv
 import SiaProofs.Lemmas.LedgerC01Fees
 /-!
 # C01 helper lemmas, part 8: the loops of `applyV2Transaction`
@@ -78,12 +78,13 @@ theorem loop_sfIns2 {T} (l : List SfIn2) : ∀ (ms ms' : Mid) (R : List (Kind ×
     l.foldlM stepSfIn2 ms = .ok ms' →
     Reached T ms ms' (fun x => x ∈ l.map (·.parent.id) ∨ x ∈ l.map (·.claimId)) ∧ Fresh T ms' R ∧
     Phi ms' = Phi ms + (l.map (fun i => claimVal ms.pool i.parent.claimStart i.parent.value)).sum ∧
-    sfTot ms' + (l.map (·.parent.value)).sum = sfTot ms ∧ ms'.pool = ms.pool := by
+    sfTot ms' + (l.map (·.parent.value)).sum = sfTot ms ∧ ms'.pool = ms.pool ∧
+    ∀ w : SfElem → Nat, sfW w ms' + (l.map (fun i => w i.parent)).sum = sfW w ms := by
   induction l with
   | nil =>
     intro ms ms' R _ hI _ _ hF h
     simp only [List.foldlM_nil] at h; cases h
-    exact ⟨⟨hI, rfl, Agree.refl _ _⟩, hF, by simp, by simp, rfl⟩
+    exact ⟨⟨hI, rfl, Agree.refl _ _⟩, hF, by simp, by simp, rfl, by simp⟩
   | cons a l ih =>
     intro ms ms' R hc hI hs hn hF h
     rw [List.foldlM_cons, bind_eq_ok] at h
@@ -109,8 +110,8 @@ theorem loop_sfIns2 {T} (l : List SfIn2) : ∀ (ms ms' : Mid) (R : List (Kind ×
       rintro (he | he)
       · exact hn.1 (he ▸ List.mem_map_of_mem hm)
       · exact hsf.not_fresh hF (Kind.sc, a.claimId) List.mem_cons_self he.symm
-    obtain ⟨hR, hF', hP, hS, hp⟩ := ih _ ms' R (by rw [hb2, hb1]; exact hc) hI2 hs2 hn.2 hF2 h2
-    refine ⟨⟨hR.inv, hR.base.trans (hb2.trans hb1), ?_⟩, hF', ?_, ?_, hp.trans (hp2.trans hp1)⟩
+    obtain ⟨hR, hF', hP, hS, hp, hW⟩ := ih _ ms' R (by rw [hb2, hb1]; exact hc) hI2 hs2 hn.2 hF2 h2
+    refine ⟨⟨hR.inv, hR.base.trans (hb2.trans hb1), ?_⟩, hF', ?_, ?_, hp.trans (hp2.trans hp1), ?_⟩
     · refine (hA12.mono (fun _ h => Or.inl h) |>.trans (hR.agree.mono (fun _ h => Or.inr h))).mono ?_
       intro x hx; simp only [List.map_cons, List.mem_cons]
       rcases hx with (h | h) | (h | h)
@@ -123,6 +124,14 @@ theorem loop_sfIns2 {T} (l : List SfIn2) : ∀ (ms ms' : Mid) (R : List (Kind ×
       have : claimVal ms.pool a.parent.claimStart a.parent.value = c := by unfold claimVal; exact hcl.2.2.symm
       rw [this]; simp only []; omega
     · simp only [List.map_cons, List.sum_cons]; omega
+    · intro w
+      have h1 := hW w
+      have h2 : sfW w ((ms.spendSf a.parent).createSc a.claimId { value := c, addr := a.claimAddr }
+          (maturityHeight (ms.spendSf a.parent).base)) = sfW w (ms.spendSf a.parent) :=
+        sfW_congr w hb2 (by unfold Mid.createSc; exact putSc_sfes _ _ _)
+      have h3 := spendSf_w w hc hI hsa
+      simp only [List.map_cons, List.sum_cons]
+      omega
 
 -- ------------------------------------------------------------------ siafund outputs
 
@@ -130,12 +139,13 @@ theorem loop_sfOuts {T} (l : List (Id × Nat × Addr)) : ∀ (ms ms' : Mid) (R :
     Fresh T ms (l.map (fun x => (Kind.sf, x.1)) ++ R) →
     l.foldlM stepSfOut ms = .ok ms' →
     Reached T ms ms' (· ∈ l.map (·.1)) ∧ Fresh T ms' R ∧
-    Phi ms' = Phi ms ∧ sfTot ms' = sfTot ms + (l.map (·.2.1)).sum ∧ ms'.pool = ms.pool := by
+    Phi ms' = Phi ms ∧ sfTot ms' = sfTot ms + (l.map (·.2.1)).sum ∧ ms'.pool = ms.pool ∧
+    ∀ w : SfElem → Nat, sfW w ms' = sfW w ms + (l.map (fun x => w ⟨x.1, x.2.1, x.2.2, ms.pool, none⟩)).sum := by
   induction l with
   | nil =>
     intro ms ms' R _ hI hF h
     simp only [List.foldlM_nil] at h; cases h
-    exact ⟨⟨hI, rfl, Agree.refl _ _⟩, hF, rfl, by simp, rfl⟩
+    exact ⟨⟨hI, rfl, Agree.refl _ _⟩, hF, rfl, by simp, rfl, by simp⟩
   | cons a l ih =>
     intro ms ms' R hc hI hF h
     rw [List.foldlM_cons, bind_eq_ok] at h
@@ -143,10 +153,16 @@ theorem loop_sfOuts {T} (l : List (Id × Nat × Addr)) : ∀ (ms ms' : Mid) (R :
     cases h1
     simp only [List.map_cons, List.cons_append] at hF
     obtain ⟨hI1, hA1, hF1, hP1, hS1, hp1, hb1⟩ := createSf_spec hc hI hF a.2.1 a.2.2
-    obtain ⟨hR, hF', hP, hS, hp⟩ := ih _ ms' R (hb1 ▸ hc) hI1 hF1 h2
-    refine ⟨⟨hR.inv, hR.base.trans hb1, ?_⟩, hF', hP.trans hP1, ?_, hp.trans hp1⟩
+    obtain ⟨hR, hF', hP, hS, hp, hW⟩ := ih _ ms' R (hb1 ▸ hc) hI1 hF1 h2
+    refine ⟨⟨hR.inv, hR.base.trans hb1, ?_⟩, hF', hP.trans hP1, ?_, hp.trans hp1, ?_⟩
     · exact (hA1.step hR.agree).mono (fun x hx => by simpa using hx)
     · simp only [List.map_cons, List.sum_cons]; omega
+    · intro w
+      have h1 := hW w
+      rw [hp1] at h1
+      have h2 := createSf_w w hc hI hF a.2.1 a.2.2
+      simp only [List.map_cons, List.sum_cons]
+      omega
 
 -- ------------------------------------------------------------------ v2 contract formations
 
